@@ -30,6 +30,8 @@ type Pub struct {
 	CallSeq int64
 	RetSeq  int64
 	Err     error
+	// X is the exchange channel when the Driver does not watch it.
+	X <-chan error
 	// Exchange observations, guarded by World.Mu.
 	XErrs     []XErr
 	ClosedSeq int64
@@ -87,6 +89,8 @@ type Driver struct {
 	OnReturn func(r *ReadRet)
 	// BigRead decides whether a BigMessage gets read.
 	BigRead func(b *mqtt.BigMessage) bool
+	// NoWatch leaves the exchange channels undrained.
+	NoWatch bool
 	// WaitBackoff makes the read loop wait on the ReadBackoff channel.
 	WaitBackoff  bool
 	BackoffStuck bool
@@ -161,7 +165,9 @@ func (d *Driver) PublishPub(p *Pub) *Pub {
 		es = err.Error()
 	}
 	// register the watcher before the return event, so that idle means watched
-	if err == nil {
+	if err == nil && d.NoWatch {
+		p.X = x // left undrained on purpose
+	} else if err == nil {
 		d.W.Mu.Lock()
 		d.Open++
 		d.W.Mu.Unlock()
